@@ -9,10 +9,12 @@ package api
 import (
 	"fmt"
 	"os"
+	"path/filepath"
 	"strings"
 	"sync/atomic"
 	"testing"
 	"time"
+	"unicode/utf8"
 
 	"wa-lang.org/wa/internal/ast"
 	"wa-lang.org/wa/internal/native/abi"
@@ -199,6 +201,60 @@ func TestVerifBounded(t *testing.T) {
 		src := "func main { x := s[" + inner + "] }"
 		zzGuard(t, "FormatCode(.wa)", src, func() { FormatCode("a.wa", src) })
 	})
+	// half-typed versions of real programs: every example source of the repository below a size limit (.wa and
+	// .wz), cut at every character, with every single line deleted, and with every single word deleted or
+	// doubled, through the formatter and through parser + type checker
+	maxSize := int64(700)
+	if os.Getenv("VERIF_TIER") == "thorough" {
+		maxSize = 3000
+	}
+	var examples []string
+	filepath.Walk("../waroot/examples", func(p string, info os.FileInfo, err error) error {
+		if err == nil && !info.IsDir() && (strings.HasSuffix(p, ".wa") || strings.HasSuffix(p, ".wz")) && info.Size() < maxSize {
+			examples = append(examples, p)
+		}
+		return nil
+	})
+	if len(examples) < 10 {
+		t.Fatalf("harness error: only %d example sources found below %d bytes", len(examples), maxSize)
+	}
+	half := func(name, src string) {
+		cases++
+		zzGuard(t, "FormatCode("+filepath.Ext(name)+")", src, func() { FormatCode(name, src) })
+		zzGuard(t, "parser + type checker ("+filepath.Ext(name)+")", src, func() {
+			fset := token.NewFileSet()
+			f, _ := parser.ParseFile(nil, fset, name, src, 0)
+			if f == nil {
+				return
+			}
+			conf := types.Config{Error: func(error) {}}
+			conf.Check("main", fset, []*ast.File{f}, nil)
+		})
+	}
+	for _, p := range examples {
+		b, err := os.ReadFile(p)
+		if err != nil {
+			t.Fatal(err)
+		}
+		src := string(b)
+		name := "a" + filepath.Ext(p)
+		for i := 0; i <= len(src); i++ {
+			if i == len(src) || utf8.RuneStart(src[i]) {
+				half(name, src[:i])
+			}
+		}
+		lines := strings.SplitAfter(src, "\n")
+		for i := range lines {
+			half(name, strings.Join(lines[:i], "")+strings.Join(lines[i+1:], ""))
+		}
+		pos := 0
+		for _, w := range strings.Fields(src) {
+			k := strings.Index(src[pos:], w) + pos
+			half(name, src[:k]+src[k+len(w):])
+			half(name, src[:k]+w+" "+src[k:])
+			pos = k + len(w)
+		}
+	}
 	// constant expressions through the type checker (parser + types.Config.Check as the loader calls it, one
 	// declaration per package so that an earlier type error cannot hide a later crash): every A op B and
 	// every unary op A over boundary literals, untyped and with a declared type; also inside a function body
@@ -241,5 +297,5 @@ func TestVerifBounded(t *testing.T) {
 			}
 		}
 	}
-	fmt.Printf("BOUNDED {\"cases\": %d, \"bound\": \"token sequences of length <= %d (.wa: 19 tokens; .wz: 13 tokens, length <= %d), <= %d (WAT, 19 tokens), <= %d (native assembly, 14 tokens, 2 CPUs; one token shorter over 34 tokens incl. directives and x64 operands for all 6 CPUs in 6 contexts); plus wider alphabets (.wa 53 tokens, WAT 45 tokens) one token shorter; type checking (LoadProgramFile) for sequences of <= %d tokens; statement-position sweeps inside a function body (34 .wz / 33 .wa tokens incl. every declaration keyword, length <= 3, thorough 4); every prefix of a WAT module with escapes; long padded inputs without extension; number literals of a radix prefix plus <= %d characters in 3 contexts; index/slice brackets of <= %d tokens; constant declarations A op B and op A over 20 boundary literals x 14 binary / 7 unary operators (7 declared types for some; divisions and shifts also inside a function body), one declaration per package through the parser and the type checker; no panic, each call returns within 10 s\"}\n", cases, nWa, nWa-1, nWat, nAsm, nCheck, nLit, nIdx)
+	fmt.Printf("BOUNDED {\"cases\": %d, \"bound\": \"token sequences of length <= %d (.wa: 19 tokens; .wz: 13 tokens, length <= %d), <= %d (WAT, 19 tokens), <= %d (native assembly, 14 tokens, 2 CPUs; one token shorter over 34 tokens incl. directives and x64 operands for all 6 CPUs in 6 contexts); plus wider alphabets (.wa 53 tokens, WAT 45 tokens) one token shorter; type checking (LoadProgramFile) for sequences of <= %d tokens; statement-position sweeps inside a function body (34 .wz / 33 .wa tokens incl. every declaration keyword, length <= 3, thorough 4); every prefix of a WAT module with escapes; half-typed versions (every prefix, every line deleted, every word deleted or doubled) of the repository's example sources below 700 bytes (thorough 3000) through the formatter and parser + type checker; long padded inputs without extension; number literals of a radix prefix plus <= %d characters in 3 contexts; index/slice brackets of <= %d tokens; constant declarations A op B and op A over 20 boundary literals x 14 binary / 7 unary operators (7 declared types for some; divisions and shifts also inside a function body), one declaration per package through the parser and the type checker; no panic, each call returns within 10 s\"}\n", cases, nWa, nWa-1, nWat, nAsm, nCheck, nLit, nIdx)
 }
